@@ -45,6 +45,9 @@ CONSTANTS
                 \*        (every timing at once -- the safety configs).  TRUE: they fire when due.
   Urgent,       \* TRUE: zero-time steps precede Tick (bounded-time configs)
   DupWrite,     \* TRUE: a downstream may attempt a second WriteMsg on the same writer
+  Defensive,    \* TRUE: a caller that does not test generationTimedOut itself and relies on
+                \*       Regroup's own tombstone rule (API-level behaviours for the waitgroup replay;
+                \*       Cache.ServeDNS is Defensive = FALSE)
   WriterGuard   \* TRUE in the code: responseWriter refuses a write once Written()
 
 VARIABLES
@@ -252,7 +255,7 @@ Recheck(r) ==
        THEN Write(r, "answer") /\ pc' = [pc EXCEPT ![r] = "fin"] /\ UNCHANGED <<role, prev>>
        ELSE IF failed[k]
        THEN Write(r, "cachedfail") /\ pc' = [pc EXCEPT ![r] = "fin"] /\ UNCHANGED <<role, prev>>
-       ELSE IF k \in Probe /\ gTO[g]                     \* abandoned probe leader stays terminal
+       ELSE IF k \in Probe /\ gTO[g] /\ ~Defensive       \* abandoned probe leader stays terminal
        THEN Write(r, "probelimit") /\ pc' = [pc EXCEPT ![r] = "fin"] /\ UNCHANGED <<role, prev>>
        ELSE IF k \notin Probe                            \* ordinary follower: resolve by itself
        THEN /\ pc' = [pc EXCEPT ![r] = "lead"]
